@@ -383,3 +383,43 @@ Section Decode.
     - apply H2. destruct (ho_state lines) as (s & _ & _ & Hi & Es). rewrite Es in *. exact (objs_le16_fit _ Hi H).
   Qed.
 End Decode.
+
+(* ================================================================== *)
+(* 5. the boolean conditions, read as propositions                      *)
+(* ================================================================== *)
+
+Lemma obj_cps_le_spec n h :
+  obj_cps_le n h = true <->
+  match h_kind h with KSlider s => (length (sl_control_points s) <= n)%nat | _ => True end.
+Proof.
+  unfold obj_cps_le. destruct (h_kind h) as [c|s|sp|hd]; try (split; [intros _; exact I|reflexivity]).
+  apply Nat.leb_le.
+Qed.
+
+Lemma obj_fits_spec E h :
+  obj_fits E h = true <->
+  match h_kind h with
+  | KSlider s =>
+      0 <= E <= 22 /\ Z.of_nat (length (sl_control_points s)) * 2 ^ E <= 2 ^ 22 /\
+      Forall (fun p => Z.abs (f32_as_i32 (px (cp_pos p))) <= 2 ^ E /\
+                       Z.abs (f32_as_i32 (py (cp_pos p))) <= 2 ^ E) (sl_control_points s)
+  | _ => True
+  end.
+Proof.
+  unfold obj_fits. destruct (h_kind h) as [c|s|sp|hd]; try (split; [intros _; exact I|reflexivity]).
+  unfold slider_fits, cps_fit, cps_within. rewrite !andb_true_iff, forallb_forall, Forall_forall.
+  unfold pos_within. split.
+  - intros [[[A B] C] D]. split; [lia|]. split; [lia|]. intros p Hp. specialize (D p Hp).
+    apply andb_true_iff in D. lia.
+  - intros [A [B C]]. split; [split; [split; lia|lia]|]. intros p Hp. specialize (C p Hp).
+    apply andb_true_iff. lia.
+Qed.
+
+Lemma obj_fits_some_spec h : obj_fits_some h = true <-> exists E, obj_fits E h = true.
+Proof.
+  split; [apply obj_fits_some_exists|]. intros (E & H).
+  destruct (h_kind h) as [c|s|sp|hd] eqn:Ek.
+  1,3,4: (apply (obj_fits_some_of 0); [lia|]; unfold obj_fits; rewrite Ek; reflexivity).
+  apply (obj_fits_some_of E); [|exact H].
+  apply obj_fits_spec in H. rewrite Ek in H. tauto.
+Qed.
